@@ -38,8 +38,7 @@ META = {"C02": {
                     "user functions pure; call order across schedules not compared",
                     "after a step-ending statement only events, terminator and persistent variables are "
                     "compared (temporaries are discarded at step end)"],
-    "probes": ["race_candidates", "race_confirmed", "directed_schedules", "guard_flipped_by_store",
-               "terminated_schedules", "loop_statement_reordered"],
+    "probes": ["guard_flipped_by_store", "terminated_schedules", "loop_statement_reordered"],
 }}
 
 
